@@ -35,3 +35,9 @@ package config
 //@   requires c != nil && c.inPolicy != nil
 //@   ensures public-exactly-when-declared [C06]: result == nil ==> has(c.inPolicy, policyKey) && ((c.inPolicy[policyKey] == nil) == public)
 //@   ensures no-overwrite [C06]: old(has(c.inPolicy, policyKey)) ==> result != nil
+
+// A name that CleanDomain reports as valid is in wire form: it matches the domain expression (an IDN name is
+// returned in its punycode form, which is what DNS queries carry).
+//@ func CleanDomain
+//@   modifies nothing
+//@   ensures valid-names-are-in-wire-form [C19]: valid ==> uf("regexmatch", bool, domainRegex, cleaned)
